@@ -48,10 +48,10 @@ const (
 type tk struct {
 	s     string
 	k     tkKind
-	bol   bool // canonical layout starts a new line before this token
-	decl  bool // first token of a declaration/statement
-	empty bool // the ';' of an empty statement
-	in    int  // indentation level (canonical)
+	bol   bool   // canonical layout starts a new line before this token
+	decl  bool   // first token of a declaration/statement
+	empty bool   // the ';' of an empty statement
+	in    int    // indentation level (canonical)
 	tag   string // "compact-eq": '=' of a compact option, "lit-sep": separator inside a message literal
 }
 
